@@ -203,6 +203,7 @@ def exhaustive(mon, chk, S, vac, rng):
     A = chk.A
     nocc = 0
     for occ in S.all_occ(vac):
+        if len(mon.viol) >= 25: return  # the report is full
         nocc += 1
         shadow = occ.copy()
         with mon.guard('C33:start'):
@@ -225,6 +226,7 @@ def exhaustive(mon, chk, S, vac, rng):
     chk.state(shadow, 'start')
     order = list(rng.permutation(free))
     for g in range(1, 2 ** len(free)):
+        if len(mon.viol) >= 25: return
         bit = (g & -g).bit_length() - 1
         a, b = flips(shadow, (order[bit],))
         mon.count('events:update1')
@@ -242,6 +244,7 @@ def history(mon, chk, S, vac, rng, length):
     chk.state(shadow, 'start')
     chk.vacancy_guard(shadow)
     for step in range(length):
+        if len(mon.viol) >= 25: return
         r = rng.uniform()
         occd = [int(i) for i in free if shadow[i] == 1]
         unoc = [int(i) for i in free if shadow[i] == 0]
